@@ -29,6 +29,10 @@ DescOrSelfOf(S)           == UNION {Desc(x) \cup {x} : x \in S}
 OpDSlash(S, ax, t)        == OpStep(DescOrSelfOf(S), ax, t)
 OpDSlashPred(S, ax, t, pr) == OpStepPred(DescOrSelfOf(S), ax, t, pr)
 OpParen(S, pr)            == FilterSeq(AscSeq(S), pr)
+(* E/(axis::test)[pr] (XPath 2.0+): a parenthesised STEP inside a path; the parentheses turn the step result into a
+   sequence in DOCUMENT order before the predicate numbers it - also on reverse axes, per context node *)
+OpParenStep(S, ax, t, pr) == UNION {FilterSeq(AscSeq(StepSet(ax, t, x)), pr) : x \in S}
+ParenStepPred == [p \in {"step:1", "step:2", "step:last()"} |-> CASE p = "step:1" -> "1" [] p = "step:2" -> "2" [] OTHER -> "last()"]
 OpStepPred2(S, ax, t, p1, p2) == UNION {FilterSeq(KeepSeq(StepSeq(ax, t, x), p1), p2) : x \in S}
 
 (* axis::test *)
@@ -75,14 +79,20 @@ Root == /\ cur = {StartNode}
         /\ UNCHANGED <<parent, kind>>
 
 (* (E)[pred] -- numbered in DOCUMENT order over the whole result *)
-Paren(pr) == /\ cur' = OpParen(cur, pr)
+Paren(pr) == /\ pr \notin DOMAIN ParenStepPred
+             /\ cur' = OpParen(cur, pr)
              /\ UNCHANGED <<parent, kind>>
+(* E/(axis::test)[pred]; enabled by the tokens "step:1", "step:2", "step:last()" of ParenPreds *)
+ParenStep(ax, t, pr) == /\ pr \in DOMAIN ParenStepPred
+                        /\ cur' = OpParenStep(cur, ax, t, ParenStepPred[pr])
+                        /\ UNCHANGED <<parent, kind>>
 
 Next == \/ \E ax \in Axes, t \in Tests : Step(ax, t)
         \/ \E ax \in Axes, t \in Tests, pr \in Preds : StepPred(ax, t, pr)
         \/ \E ax \in Axes, t \in Tests : DSlash(ax, t)
         \/ \E ax \in Axes, t \in Tests, pr \in Preds : DSlashPred(ax, t, pr)
         \/ \E pr \in ParenPreds : Paren(pr)
+        \/ \E ax \in Axes, t \in Tests, pr \in ParenPreds : ParenStep(ax, t, pr)
         \/ \E ax \in Axes, t \in Tests, p1 \in Preds2, p2 \in {"1", "last()"} : StepPred2(ax, t, p1, p2)
         \/ \E t \in NsTests : NsStep(t)
         \/ \E t \in NsTests : NsParent(t)
